@@ -891,6 +891,37 @@ func (c *FnCtx) callFunc(st *State, call *ast.CallExpr, fn *types.Func, recv *Va
 	}
 	if c.con != nil {
 		for _, ac := range c.con.AtCall {
+			if ac.After && ac.SetVar != "" && (ac.Callee == shortKey(key) || ac.Callee == key) {
+				// set-after-call: snapshot of an expression over the caller's scope and the call's results
+				if ord := c.siteOrd(call, key); ord != 0 && (ac.Ord == 0 || ac.Ord == ord) {
+					gv := c.V.specs.GhostVars[ac.SetVar]
+					if gv == nil {
+						c.specErr("set-after-call: no ghost variable " + ac.SetVar)
+						continue
+					}
+					base := c.specEnvAt(st, call.Pos())
+					inner := base.lookup
+					env := *base
+					env.lookup = func(n string) *Val {
+						if n == "result" && len(results) > 0 {
+							return results[0]
+						}
+						if strings.HasPrefix(n, "result") {
+							if k, err := strconv.Atoi(n[6:]); err == nil && k < len(results) {
+								return results[k]
+							}
+						}
+						return inner(n)
+					}
+					if base.old == base {
+						env.old = &env
+					}
+					if v := c.specEval(&env, ac.Cl.Expr); v != nil {
+						st.ghost[ac.SetVar] = c.coerce(v, gv.Sort).T
+					}
+				}
+				continue
+			}
 			if ac.Interfere == "after" && (ac.Callee == shortKey(key) || ac.Callee == key) {
 				if ord := c.siteOrd(call, key); ord != 0 && (ac.Ord == 0 || ac.Ord == ord) {
 					c.interfere(st, call, c.lockRegions(), false)
@@ -915,7 +946,7 @@ func (c *FnCtx) atCallHooks(st *State, call *ast.CallExpr, key string, args []*V
 	if c.con != nil && len(c.con.AtCall) > 0 {
 		ord := c.siteOrd(call, key)
 		for i, ac := range c.con.AtCall {
-			if (ac.Callee != shortKey(key) && ac.Callee != key) || ord == 0 || (ac.Ord != 0 && ac.Ord != ord) {
+			if (ac.Callee != shortKey(key) && ac.Callee != key) || ord == 0 || (ac.Ord != 0 && ac.Ord != ord) || ac.After {
 				continue
 			}
 			evalPos := call.Pos()
